@@ -10,6 +10,7 @@ from . import artifacts, layer_i, layer_t, corpus, expand
 from .common import VERIF, REPO, Undecided, log, run, Scratch
 
 BASELINE_PATH = os.path.join(VERIF, "contracts", "baseline_obligations.json")
+BODIES_PATH = os.path.join(VERIF, "contracts", "baseline_bodies.json")
 KNOWN_PATH = os.path.join(VERIF, "known_findings.json")
 EVIDENCE_DIR = os.path.join(VERIF, "evidence")
 REPLAY_DIR = os.path.join(VERIF, "replay")
@@ -18,7 +19,9 @@ REPLAY_DIR = os.path.join(VERIF, "replay")
 class Ob:
     """one obligation: id, status in {ok, failed, undecided}, backend, detail"""
 
-    def __init__(self, oid, status, backend, detail="", time_ms=0, sample=None, replay=None):
+    def __init__(self, oid, status, backend, detail="", time_ms=0, sample=None, replay=None, kinds=None, body_hash=None):
+        self.kinds = kinds or []
+        self.body_hash = body_hash
         self.id = oid
         self.status = status
         self.backend = backend
@@ -74,7 +77,8 @@ def collect_T(pid, tier, pids=None):
             if mod_problem and st == "ok":
                 st, detail = "undecided", mod_problem
             obs.append(Ob("%s/%s" % (base, k), st, "verus+z3", detail, v.get("time_ms", 0),
-                          sample={"function": k, "repr": m["repr"], "cell": m["cell"], "queries": v.get("queries"), "code": v.get("raw", "")[:160]}))
+                          sample={"function": k, "repr": m["repr"], "cell": m["cell"], "queries": v.get("queries"), "code": v.get("raw", "")[:160]},
+                          kinds=v.get("kinds"), body_hash=m.get("canon_hashes", {}).get(k)))
         for k in m.get("not_under_contract", []):
             meta["not_under_contract"].add(k)
     return obs, meta
@@ -204,7 +208,8 @@ def collect_G(pid, tier):
         st = {"verified": "ok", "failed": "failed", "undecided": "undecided"}[f["status"]]
         if st == "ok" and canary.get("status") != "failed":
             st = "undecided"
-        obs.append(Ob("G/" + name, st, "verus+z3", f.get("reason", ""), f.get("time_ms", 0), sample={"function": name, "slice_of": "/repo/src (verbatim)"}))
+        obs.append(Ob("G/" + name, st, "verus+z3", f.get("reason", ""), f.get("time_ms", 0), sample={"function": name, "slice_of": "/repo/src (verbatim)"},
+                      kinds=f.get("kinds"), body_hash=f.get("body_hash")))
     return obs, meta
 
 
@@ -351,6 +356,13 @@ def load_baseline():
     return {}
 
 
+def load_bodies():
+    if os.path.exists(BODIES_PATH):
+        with open(BODIES_PATH) as f:
+            return json.load(f)
+    return {}
+
+
 def load_known():
     if os.path.exists(KNOWN_PATH):
         with open(KNOWN_PATH) as f:
@@ -439,7 +451,16 @@ def decide(pid, obs, tier, record_baseline=False):
     violations, undecided, known_hits = [], [], []
     if record_baseline:
         return violations, undecided, known_hits
+    bodies = load_bodies()
     for o in obs:
+        if o.status == "failed" and o.kinds and all(k == "scaffolding" for k in o.kinds) and o.body_hash \
+                and bodies.get(o.id.replace("T32/", "T/")) not in (None, o.body_hash) and o.id.startswith(("T/", "T32/", "G/")):
+            # only proof annotations (loop invariant / assert / lemma precondition) fail, and the function's
+            # body is not the one the annotations were written for: the proof is broken, the property is
+            # not refuted — undecided unless an instance layer shows a concrete failing input
+            undecided.append(Ob(o.id, "undecided", o.backend, "the body of this function changed and only proof annotations fail (no semantic obligation refuted); "
+                                "not decided by layer T\n" + o.detail))
+            continue
         if o.status == "failed":
             k = known_match(pid, o, known)
             if k:
